@@ -769,7 +769,8 @@ impl C16 {
             let (eds, _) = gen_eds(rng, hw);
             let dah = DataAvailabilityHeader::from_eds(&eds);
             let height = rng.range(1, 1_000_000);
-            let eh = make_header(rng, "private", height, 1_700_000_000_000_000_000, AppVersionLatest(), None, &ordered, &set, &set, dah, &|_| true);
+            let lbi = if height == 1 { None } else { some_block_id(rng) };
+            let eh = make_header(rng, "private", height, 1_700_000_000_000_000_000, AppVersionLatest(), lbi, &ordered, &set, &set, dah, &|_| true);
             let bytes = eh.encode_vec();
             out.op(format!("eh bytes={}", hx(&bytes)), "eh/honest", true);
             for _ in 0..12 {
@@ -1007,6 +1008,12 @@ impl Prop for C16 {
             _ => "bad-op".into(),
         }
     }
+}
+
+/// a well-formed previous block id (any hash): headers above height 1 need one
+fn some_block_id(rng: &mut Rng) -> Option<tendermint::block::Id> {
+    let h = |rng: &mut Rng| tendermint::Hash::Sha256(rng.bytes(32).try_into().unwrap());
+    Some(tendermint::block::Id { hash: h(rng), part_set_header: tendermint::block::parts::Header::new(1, h(rng)).unwrap() })
 }
 
 fn main() {
